@@ -569,7 +569,7 @@ impl Rig for H2Rig {
     fn runs(&self, tier: Tier) -> u64 {
         match tier {
             Tier::Quick => 60_000,
-            Tier::Thorough => 3_000_000,
+            Tier::Thorough => 20_000_000,
         }
     }
     fn gen(&self, rng: &mut Rng, _idx: u64, _tier: Tier) -> H2Scenario {
